@@ -7,7 +7,8 @@ ID = "C13"
 CASES = {"quick": 3000, "thorough": 9000}
 RULE = ("seeded PDAs (<=3 states, <=3 stack symbols, <=6 transitions, pushes of 0-3 symbols, epsilon moves and "
         "stack-growing epsilon cycles, no final states, reserved fresh names as state/stack values) and seeded "
-        "grammars x value-hash schedule x PYTHONHASHSEED; each conversion's result is extracted (start stack "
+        "grammars (a sub-workload lets a variable and a terminal share a value) x value-hash schedule x PYTHONHASHSEED; "
+        "results of conversions are converted again; each conversion's result is extracted (start stack "
         "symbol via to_networkx) and its bounded language (<=4) by the reference PDA saturation / grammar "
         "fixpoint compared with the source's; non-trivial = source language (<=4) has >=2 words; distinct = "
         "(descriptor digest, order signature)")
